@@ -109,6 +109,12 @@ fn run_quad<X: QuadRS>(ctx: &mut Ctx, gen: &Gen, path: u8, dense: usize) {
         }
         _ => X::collect_u64(&q),
     });
+    if n == 0 {
+        if let Some(d) = ctx.total("default", "default", 0, 0, 0, X::default) {
+            sweep_quadrs(ctx, &d, &r, dense, false, "default");
+            ctx.count("default_states_swept");
+        }
+    }
     if let Some(t) = t {
         sweep_quadrs(ctx, &t, &r, dense, false, "");
         // a state obtained by deserialization must answer like the one that was serialized
@@ -201,6 +207,12 @@ fn run_bin<X: BinRS>(ctx: &mut Ctx, gen: &BitGen, path: u8, dense: usize) {
             X::from(bv)
         }
     });
+    if bits.is_empty() {
+        if let Some(d) = ctx.total("default", "default", 0, 0, 0, X::default) {
+            sweep_binrs(ctx, &d, &r, dense, false, "default");
+            ctx.count("default_states_swept");
+        }
+    }
     if let Some(t) = t {
         sweep_binrs(ctx, &t, &r, dense, false, "");
         if derived_wanted(&bits) {
@@ -264,6 +276,12 @@ fn run_darray<const S0: bool>(ctx: &mut Ctx, gen: &BitGen, path: u8, dense: usiz
         }
         extra.truncate(24);
         let starts = with_pos_starts(r.len(), &extra);
+        if bits.is_empty() {
+            if let Some(d) = ctx.total("default", "default", 0, 0, 0, DArray::<S0>::default) {
+                sweep_darray(ctx, &d, &r, dense, false, "default", &starts);
+                ctx.count("default_states_swept");
+            }
+        }
         sweep_darray(ctx, &t, &r, dense, false, "", &starts);
         if derived_wanted(&bits) {
             if let Some(d) = round_trip(ctx, &t) {
